@@ -94,15 +94,33 @@ class SlotLoop:
             if p[-1][0] != self.head:
                 continue
             oc = {}
+            env = {}
+            feasible = True
             for (nid, lab) in p:
                 n = g.nodes[nid]
+                # boolean locals that only ever receive literals are propagated along the path (infeasible-path pruning)
+                if n.kind == 'stmt' and n.ast is not None:
+                    for x in walk(n.ast):
+                        if x.get('k') == 'decl':
+                            for v in x['vars']:
+                                if (v.get('t') or {}).get('k') == 'bool' and v.get('init') is not None:
+                                    b = strip(v['init']).get('bool')
+                                    env[v['id']] = b
+                        if x.get('k') == 'assign' and strip(x['lhs']).get('k') == 'ref' and (strip(x['lhs']).get('t') or {}).get('k') == 'bool':
+                            env[strip(x['lhs'])['id']] = strip(x['rhs']).get('bool')
+                if n.kind == 'cond' and lab is not None:
+                    e = strip(n.ast)
+                    if e.get('k') == 'ref' and e.get('rk') == 'local' and env.get(e.get('id')) is not None and env[e['id']] != lab:
+                        feasible = False
+                        break
                 if n.kind == 'cond' and lab is not None:
                     a = self.atoms(n)
                     if a is not None:
                         role, positive = a
                         val = lab if positive else (not lab)
                         oc[role] = val
-            out.append((p, oc))
+            if feasible:
+                out.append((p, oc))
         return out
 
     def count_on_path(self, p, vid):
